@@ -10,7 +10,7 @@ The independent implementation is the reference reader/writer `Spec/C06Reader.le
 
 * the per-object scheme is invertible: `decTree ∘ encTree = id` for every object tree and every
   cipher pair that round-trips; the byte ciphers of Algorithm 1 / 1.A round-trip for all keys,
-  object numbers, generations, IVs and byte strings (RC4 unconditionally, AES under `AesOK`);
+  object numbers, generations, IVs and byte strings (RC4 and AES unconditionally; `AesOK` is the theorem `aesOK`);
   hence `decryptIObj (encryptIObj o) = o` for every non-stream indirect object;
 * key-length arithmetic (Algorithm 1: min(n+5, 16); Algorithm 2: n);
 * password validation: the right password is accepted (R2–R4: C23; R5: here) and, for R5, ONLY
@@ -85,8 +85,8 @@ def KeyFits (m : Nat) (key : Bytes) : Prop :=
   (m = 2 → key.length ≥ 11) ∧ (m = 3 → key.length = 32)
 
 /-- Algorithm 1 / 1.A on the file's bytes: decrypt ∘ encrypt = id for all keys, object ids, IVs and
-plaintexts (Identity and RC4 unconditionally; AESV2 / AESV3 under `AesOK`). -/
-theorem C06_bytes_roundtrip (hA : AesOK) (m : Nat) (hm : m ≤ 3) (key : Bytes) (hk : KeyFits m key) (num gen : Nat)
+plaintexts (Identity, RC4, AESV2 and AESV3, all unconditionally). -/
+theorem C06_bytes_roundtrip (m : Nat) (hm : m ≤ 3) (key : Bytes) (hk : KeyFits m key) (num gen : Nat)
     (iv : Bytes) (hiv : iv.length = 16) (b : NBytes) (hb : IsBytes b) :
     decBytes m key num gen (encBytes m key num gen iv b) = some b := by
   unfold decBytes encBytes
@@ -98,7 +98,7 @@ theorem C06_bytes_roundtrip (hA : AesOK) (m : Nat) (hm : m ≤ 3) (key : Bytes) 
     · subst h1
       rw [rc4_object_cipher]; simp [nats_bytes_nats b hb]
     · have h23 : m = 2 ∨ m = 3 := by omega
-      rw [aes_object_cipher hA m h23 key num gen iv _ hiv hk]
+      rw [aes_object_cipher aesOK m h23 key num gen iv _ hiv hk]
       simp [nats_bytes_nats b hb]
 
 example : KeyFits 1 [1, 2, 3, 4, 5] ∧ IsBytes [0, 255, 17] := by
@@ -153,14 +153,14 @@ end
 /-- The reference reader recovers every non-stream indirect object the reference writer
 encrypted: any encryption dictionary (V1–V5, any /StrF method), any file key that fits the method,
 any object number and generation, any IV, any object tree of byte strings. -/
-theorem C06_object_roundtrip (hA : AesOK) (e : Enc) (hm : e.strM ≤ 3) (key : Bytes) (hk : KeyFits e.strM key)
+theorem C06_object_roundtrip (e : Enc) (hm : e.strM ≤ 3) (key : Bytes) (hk : KeyFits e.strM key)
     (iv : Bytes) (hiv : iv.length = 16) (o : IObj) (hd : o.data = none) (hn : e.objNum ≠ some o.num)
     (hb : TreeBytes o.val) :
     decryptIObj e key (encryptIObj e key iv o) = some o := by
   have hn' : (e.objNum == some o.num) = false := by simpa using hn
   unfold decryptIObj encryptIObj
   simp only [hd, Option.map_none, hn', Bool.false_eq_true, if_false, Option.isSome_none, and_false]
-  rw [tree_roundtrip' _ _ (fun b hb' => C06_bytes_roundtrip hA e.strM hm key hk o.num o.gen iv hiv b hb') o.val hb]
+  rw [tree_roundtrip' _ _ (fun b hb' => C06_bytes_roundtrip e.strM hm key hk o.num o.gen iv hiv b hb') o.val hb]
   cases o
   simp_all
 
@@ -191,7 +191,7 @@ theorem C06_file_key_length (rev n : Nat) (hn : n ≤ 16) (pw o : Bytes) (p : Na
 example : (alg2 3 16 [] [] 0 [] true).length = 16 := C06_file_key_length 3 16 (by omega) _ _ _ _ _
 
 /-- RC4 keeps the length; AES-CBC with PKCS#7 behind a 16-byte IV gives 16·(⌊len/16⌋ + 2) bytes. -/
-theorem C06_ciphertext_length (hA : AesOK) (m : Nat) (hm : m = 2 ∨ m = 3) (key : Bytes) (hk : KeyFits m key)
+theorem C06_ciphertext_length (m : Nat) (hm : m = 2 ∨ m = 3) (key : Bytes) (hk : KeyFits m key)
     (num gen : Nat) (iv data : Bytes) (hiv : iv.length = 16) :
     (encryptData m key num gen iv data).length = 16 * (data.length / 16 + 2) := by
   have h1 : ¬ m = 1 := by omega
@@ -205,7 +205,7 @@ theorem C06_ciphertext_length (hA : AesOK) (m : Nat) (hm : m = 2 ∨ m = 3) (key
     · subst hkk
       have h2 : ¬ m = 2 := by omega
       simp only [h2, if_false]; right; exact hk.2 h
-  obtain ⟨c, hc1, _, hc3⟩ := aesCbcPad_roundtrip hA k iv data hkl hiv
+  obtain ⟨c, hc1, _, hc3⟩ := aesCbcPad_roundtrip aesOK k iv data hkl hiv
   simp [hc1, hiv, hc3]; omega
 
 /-! ## password validation -/
@@ -251,8 +251,8 @@ theorem C06_r5_accepts_only_right_password (hS : Sha256Injective) (e : Enc) (hr 
   · simp at hacc
 
 /-- and the right password IS accepted: validation succeeds and /UE unwraps to the file key
-(under `AesOK`). -/
-theorem C06_r5_accepts_right_password (hA : AesOK) (e : Enc) (hr : e.r = 5)
+-/
+theorem C06_r5_accepts_right_password (e : Enc) (hr : e.r = 5)
     (pw vs ks fileKey : Bytes) (hvs : vs.length = 8) (hks : ks.length = 8) (hk : fileKey.length = 32)
     (hp : pw.length ≤ 127) (hu : e.u = alg8U 5 pw vs ks) (hue : e.ue = alg8UE 5 pw ks fileKey) :
     authUser e pw = some fileKey := by
@@ -264,7 +264,7 @@ theorem C06_r5_accepts_right_password (hA : AesOK) (e : Enc) (hr : e.r = 5)
     simp only [kSalt]
     rw [List.take_of_length_le (l := sha256 (pw ++ vs ++ List.take 48 []) ++ vs ++ ks) (by simp [sha256_length, hvs, hks]),
       List.drop_left' (by simp [sha256_length, hvs]), List.take_of_length_le (by omega)]
-  obtain ⟨c, hc1, hc2, _⟩ := aesCbcRaw_roundtrip hA (sha256 (pw ++ ks ++ List.take 48 [])) fileKey (sha256_length _) (by omega)
+  obtain ⟨c, hc1, hc2, _⟩ := aesCbcRaw_roundtrip aesOK (sha256 (pw ++ ks ++ List.take 48 [])) fileKey (sha256_length _) (by omega)
   simp only [authUser, hr, show ¬ (5 : Nat) ≤ 4 by omega, if_false, ht, hu, hue, alg11, alg8U, alg8UE, hashFor, if_true, hashR5,
     hv, hh, hl hks, hksalt, and_self, hc1, Option.getD_some]
   exact hc2
